@@ -19,7 +19,8 @@ HAZARDS = ["-", "+", "*", "1.", "2)", "#", "##", ">", "---", "***", "===", "~~~"
 URLS = ["http://example.com/a_b?c=1&d=2", "https://x.org/path/to/page.html#frag", "www.example.com/q"]
 CODE_LINES = ["x = 1", "", "    indented", "```", "~~~", "````", "> quoted?", "- item?", "# not heading", "a  b   c", "\ttab", "end \\",
               "<!-- c -->", "{% t %}", "'q' \"dq\" ...", "*x*", "|a|b|", "Compiling...done", "it's \"x\"...y"]
-TAGS = ["{% tag a=1 %}", "{% /tag %}", "{{ var }}", "{# note #}", "<!-- comment -->", "{% field kind=\"string\" label='x' %}",
+CLOSING_TAGS = ["{% /tag %}", "<!-- /c -->"]
+TAGS = ["{% tag a=1 %}", "{{ var }}", "{# note #}", "<!-- comment -->", "{% field kind=\"string\" label='x' %}",
         "{% t x=\"a...b\" %}", "{{ a...b }}", "<!-- wait... more -->", "{# it's \"q\" #}"]
 INLINE_HTML = ["<b>", "</b>", "<span class=\"x\">", "<br/>"]
 
@@ -61,7 +62,7 @@ def inline(rng: random.Random, n: int, depth: int = 0, **kw) -> str:
             parts.append("~~" + " ".join(words(rng, 2)) + "~~")
             i += 2
         elif r < 0.84:
-            c = rng.choice(["code", "a b", "'q'", "\"dq\" ...", "a  b", "f(x)", "end."] + (["x `y` z"] if kw.get("backtick_spans") else []))
+            c = rng.choice(["code", "a b", "'q'", "\"dq\" ...", "a  b", "f(x)", "end.", "x `y` z"])
             d = "``" if "`" in c else "`"
             parts.append(f"{d} {c} {d}" if "`" in c else f"`{c}`")
             i += 1
@@ -129,9 +130,17 @@ def _split_keep_atoms(text: str) -> list[str]:
     return [m.group(0) for m in _ATOM.finditer(text)]
 
 
+_HAZ_HEAD = re.compile(r"^(?:[-+*>=|#~`]|\d+[.)]|:-)")
+
+
 def paragraph(rng, **kw) -> list[str]:
     t = inline(rng, rng.randint(3, 40), **kw)
-    return lay_out(rng, t)
+    lines = lay_out(rng, t)
+    if kw.get("hazards"):
+        # hazard words are inert text in the INPUT: never at the start of a source line
+        # (only the formatter's own line breaking may put them there)
+        lines = [("so " + l) if _HAZ_HEAD.match(l) else l for l in lines]
+    return lines
 
 
 def code_block(rng, clean=True) -> list[str]:
